@@ -32,18 +32,18 @@ def same(a, b):
     return bool(r) if isinstance(r, Sym) else r
 
 
-def h_quant(ctx, m, gi, nan_mode, output_dtype, n_edits):
+def h_quant(ctx, m, gi, nan_mode, output_dtype, n_edits, dropna=True):
     try:
-        return _h_quant(ctx, m, gi, nan_mode, output_dtype, n_edits)
+        return _h_quant(ctx, m, gi, nan_mode, output_dtype, n_edits, dropna)
     except Violation as v:
         v.extra = dict(v.extra or {}, feature_type="quantitative")
         raise
 
 
-def _h_quant(ctx, m, gi, nan_mode, output_dtype, n_edits):
+def _h_quant(ctx, m, gi, nan_mode, output_dtype, n_edits, dropna=True):
     grouping = contiguous_groupings(m)[gi]
     with rebound(ctx, ["R1"]):
-        d, spec, nan_group, has_nan, quantiles = k_transform.build_fitted(ctx, m, grouping, nan_mode, output_dtype, True)
+        d, spec, nan_group, has_nan, quantiles = k_transform.build_fitted(ctx, m, grouping, nan_mode, output_dtype, dropna)
         # reference partition: ordered list of groups (lists of boundary indices); NaN membership
         groups = [list(g) for g in grouping]
         nan_in = nan_group  # index of group holding NaN, None = alone (if has_nan)
@@ -128,26 +128,33 @@ def _h_quant(ctx, m, gi, nan_mode, output_dtype, n_edits):
                         ctx.require(eqv(out[i], after_lab[i]), "C17.label-after-edit", f"after {history}: row {r!r} labelled {out[i]!r}, rank of its group is {after_lab[i]}")
             s = d.summary()
             ctx.require(len(s) == exp_n, "C17.summary-after-edit", f"after {history}: summary has {len(s)} rows for {exp_n} groups")
+            if getattr(ctx, "concrete", False):
+                from AutoCarver.discretizers.utils.base_discretizers import load_discretizer
+
+                loaded = load_discretizer(json.loads(json.dumps(d.to_json())))
+                out2 = list(loaded.transform(X)["f"])
+                ctx.require(all(same(a_, b_) for a_, b_ in zip(out, out2)), "C17.json-after-edit", f"after {history} (dropna={dropna}): reloaded object transforms to {out2}, original {out}", dict(concrete_only=True))
     return dict(counters={"ok": 1}, sample=dict(m=m, grouping=grouping, nan_mode=nan_mode, edits=history), result=dict(groups=groups, nan_in=nan_in, n_edits=len(history)))
 
 
-def h_qual(ctx, config, output_dtype, n_edits, ordered):
+def h_qual(ctx, config, output_dtype, n_edits, ordered, dropna=True):
     try:
-        return _h_qual(ctx, config, output_dtype, n_edits, ordered)
+        return _h_qual(ctx, config, output_dtype, n_edits, ordered, dropna)
     except Violation as v:
         v.extra = dict(v.extra or {}, feature_type="qualitative")
         raise
 
 
-def _h_qual(ctx, config, output_dtype, n_edits, ordered):
+def _h_qual(ctx, config, output_dtype, n_edits, ordered, dropna=True):
     from AutoCarver.discretizers import GroupedList
     from AutoCarver.discretizers.utils.base_discretizers import BaseDiscretizer, load_discretizer
 
     cfg_groups, has_default, has_nan = k_qualitative.CONFIGS[config]
     groups = [[l, list(mem)] for l, mem in cfg_groups]
     d = BaseDiscretizer(["f"], values_orders={"f": GroupedList({l: list(mem) for l, mem in groups})}, input_dtypes="str", output_dtype=output_dtype,
-                        str_nan=k_qualitative.NAN, str_default=k_qualitative.OTHER, dropna=True, copy=True, verbose=False)
+                        str_nan=k_qualitative.NAN, str_default=k_qualitative.OTHER, dropna=dropna, copy=True, verbose=False)
     d.fit()
+    nan_stays_missing = (not dropna) and has_nan  # until missing values are attached to a group by an edit
     known = [v for _, mem in groups for v in mem]
     probe_vals = [v for v in known if v != k_qualitative.NAN] + ([np.nan] if has_nan else [])
     X = pd.DataFrame({"f": pd.Series(probe_vals, dtype=object)})
@@ -180,6 +187,7 @@ def _h_qual(ctx, config, output_dtype, n_edits, ordered):
                     d.update_discretizer("f", "group", float("nan"), groups[b][0])
                     groups[b][1] = groups[a][1] + groups[b][1]
                     del groups[a]
+                    nan_stays_missing = False
                 else:
                     desc = f"replace({groups[a][0]!r} by {b!r})"
                     d.update_discretizer("f", "replace", groups[a][0], b)
@@ -204,12 +212,23 @@ def _h_qual(ctx, config, output_dtype, n_edits, ordered):
                     return i
             return None
 
+        def isnan_(v):
+            return isinstance(v, float) and v != v
+
+        if nan_stays_missing:
+            for v, o in zip(probe_vals, out):
+                if isnan_(v):
+                    ctx.require(isnan_(o), "C17.label-after-edit", f"after {history} (dropna=False, missing values not attached to a group): NaN row became {o!r}")
         for i, j in itertools.combinations(range(len(probe_vals)), 2):
+            if nan_stays_missing and (isnan_(probe_vals[i]) or isnan_(probe_vals[j])):
+                continue
             gi_, gj_ = gidx(probe_vals[i]), gidx(probe_vals[j])
             ctx.require((out[i] == out[j]) == (gi_ == gj_), "C17.partition-after-edit",
                         f"after {history}: values {probe_vals[i]!r},{probe_vals[j]!r} expected {'same' if gi_ == gj_ else 'different'} group, transform gives {out[i]!r},{out[j]!r}")
         if output_dtype == "str":
             for v, o in zip(probe_vals, out):
+                if nan_stays_missing and isnan_(v):
+                    continue
                 ctx.require(o == groups[gidx(v)][0], "C17.label-after-edit", f"after {history}: value {v!r} labelled {o!r}, its group's leader is {groups[gidx(v)][0]!r}")
         leaders = list(d.values_orders["f"])
         ctx.require(leaders == [g[0] for g in groups], "C17.values-orders-after-edit", f"after {history}: leaders {leaders!r}, expected {[g[0] for g in groups]!r}")
@@ -220,11 +239,11 @@ def _h_qual(ctx, config, output_dtype, n_edits, ordered):
         if getattr(ctx, "concrete", False):
             loaded = load_discretizer(json.loads(json.dumps(d.to_json())))
             out2 = list(loaded.transform(X)["f"])
-            ctx.require(out2 == out, "C17.json-after-edit", f"after {history}: reloaded object transforms to {out2}, original {out}")
+            ctx.require(all(same(a_, b_) for a_, b_ in zip(out, out2)) and len(out) == len(out2), "C17.json-after-edit", f"after {history} (dropna={dropna}): reloaded object transforms to {out2}, original {out}", dict(concrete_only=True))
     return dict(counters={"ok": 1}, sample=dict(config=config, edits=history), result=dict(leaders=[g[0] for g in groups]))
 
 
-def obligations(tier):
+def obligations(tier, prefix="O17.1"):
     quick = tier == "quick"
     qj = []
     for m in ([2, 3] if quick else [2, 3, 4]):
@@ -233,18 +252,20 @@ def obligations(tier):
             for nan_mode in ["none", "alone"] + ([str(g - 1)] if not quick else []):
                 for od in ("float", "str"):
                     for n_edits in ([1, 2] if m <= 3 else [1]):
-                        qj.append(dict(m=m, gi=gi, nan_mode=nan_mode, output_dtype=od, n_edits=n_edits))
+                        for dropna in ((True, False) if nan_mode == "alone" else (True,)):
+                            qj.append(dict(m=m, gi=gi, nan_mode=nan_mode, output_dtype=od, n_edits=n_edits, dropna=dropna))
     cj = []
     for config in ("plain", "default", "nan_alone", "numeric"):
         for od in ("str", "float"):
             for ordered in (False, True):
                 for n_edits in ([1, 2] if quick else [1, 2, 3]):
-                    cj.append(dict(config=config, output_dtype=od, n_edits=n_edits, ordered=ordered))
+                    for dropna in ((True, False) if config == "nan_alone" else (True,)):
+                        cj.append(dict(config=config, output_dtype=od, n_edits=n_edits, ordered=ordered, dropna=dropna))
     return [
-        Obligation(name="O17.1a quantitative feature: sequences of solver-chosen edits (adjacent groups in both directions, NaN into a group, replace) keep transform coherent with the edited partition",
+        Obligation(name=prefix + "a quantitative feature: sequences of solver-chosen edits (adjacent groups in both directions, NaN into a group, replace) keep transform coherent with the edited partition",
                    harness=h_quant, jobs=qj, encodes=ENC, rebindings=["R1", "R3"],
-                   bounds=f"m <= {3 if quick else 4} symbolic boundaries, every initial grouping, NaN absent/alone, <= 2 edits, two symbolic probe rows + NaN row", twin_every=5),
-        Obligation(name="O17.1b qualitative feature: sequences of edits on string / numeric / missing values; labels, summary and (on concrete witnesses) the JSON round trip agree with transform",
+                   bounds=f"m <= {3 if quick else 4} symbolic boundaries, every initial grouping, NaN absent/alone, <= 2 edits, two symbolic probe rows + NaN row", twin_every=2),
+        Obligation(name=prefix + "b qualitative feature: sequences of edits on string / numeric / missing values; labels, summary and (on concrete witnesses) the JSON round trip agree with transform",
                    harness=h_qual, jobs=cj, encodes=ENC + ["load_discretizer", "BaseDiscretizer.to_json"],
                    bounds=f"4 configurations, <= {2 if quick else 3} edits, any groups (categorical) or adjacent groups (ordered), probe = every known value (+NaN)", twin_every=1),
     ]
